@@ -30,7 +30,24 @@
    the implementation by identity (`is`) in the correspondence.  Identity across several type systems (merge) is not
    represented in this file.  t_rank is a ghost (rank (supertype t) < rank t): no query result depends on it; it only
    supplies the fuel of the recursive queries and the measure of the proofs.
-   Exceptions are `res`; a failing operation of a history leaves the state unchanged (run_ts). *)
+   Exceptions are `res`; a failing operation of a history leaves the state unchanged (run_ts).
+
+   PUBLIC DEFINITIONS (for Merge / Descr / Json / Cas models; theorems about them are in TSProofs.v, Props/C10.v, Props/C11.v)
+     data        feat (mkFeat name reserved dom range elem multi desc), ty (mkTy ...), tsys = list ty, top_ty, init_ts,
+                 init_ts_nodoc, builtin_ops, predefined_types, primitive_types, final_types, TOP
+     lookup      find_ty, registered, get_type (short names), get_type_exact, contains_type, short_name, has_dot
+     hierarchy   children, descendants + desc_fuel, ancestors + ancestors_of, walks_up, is_below, subsumes_ty, ts_subsumes,
+                 is_instance_of, is_primitive, is_primitive_array, is_array
+     features    feat_eqb (Feature.__eq__), feat_same (all fields), find_feat, all_features, feature_names, get_feature
+     operations  create_type, make_feature, create_feature (functional form; add_feature / spread), create_feature_mech
+                 (add_rec), instantiate, ctor_accepts; building blocks add_child, inherit_all, new_type, with_own, with_inh,
+                 rebuild_ctor, set_ctor, upd_ty
+     histories   tsop (OCreateType | OCreateFeature | OInstantiate), opres, step, step_mech, run_ts, run_ts_mech, final_ts
+     invariant   below, sbelow, WFh (hierarchy), WFf (features), WF = WFh /\ WFf; boolean twins wfhb, wffb, wfb
+                 (TSProofs: wfhb_reflect, wfb_reflect; run_WFh, run_WF: preserved from ANY well-formed ts)
+   A constructor of type systems defined elsewhere (merge, descriptor or JSON loading) inherits every query theorem by
+   establishing WFh (C10) / WF (C11) of its result; re-parenting has to move the child link, bump the ghost ranks of the
+   moved subtree and re-inherit features (the helper lemmas WFh_map / keeps_shape cover updates that keep the hierarchy). *)
 From Cassis Require Import Base.
 
 Definition TOP : tname := "uima.cas.TOP".
@@ -482,15 +499,24 @@ Definition wfhb (ts : tsys) : bool :=
                        && forallb (fun tc => negb (super_is (t_name p) tc) || memb (t_name tc) (t_children p)) ts) ts
   && forallb (fun t => forallb (feat_refs_okb ts) (t_own t ++ t_inh t)
                        && forallb (fun f => String.eqb (f_dom f) (t_name t)) (t_own t)) ts.
-(* a is a proper ancestor of t *)
-Definition is_sbelow (ts : tsys) (a : tname) (t : ty) : bool :=
-  match t_super t with Some s => is_below ts a s | None => false end.
+(* the proper ancestors of a type, nearest first (walk along supertype) *)
+Fixpoint ancestors (fuel : nat) (ts : tsys) (n : tname) : list tname :=
+  match fuel with
+  | O => []
+  | S k => match find_ty ts n with
+           | None => []
+           | Some t => match t_super t with None => [] | Some s => s :: ancestors k ts s end
+           end
+  end.
+Definition ancestors_of (ts : tsys) (t : ty) : list tname := ancestors (S (t_rank t)) ts (t_name t).
 Definition list_str_eqb (a b : list string) : bool := list_eqb String.eqb a b.
 Definition wffb (ts : tsys) : bool :=
   forallb (fun t =>
-    forallb (fun f => existsb (fun a => is_sbelow ts (t_name a) t && existsb (feat_same f) (t_own a)) ts) (t_inh t)
-    && forallb (fun a => negb (is_sbelow ts (t_name a) t)
-                         || forallb (fun g => existsb (fun f => feat_eqb f g) (t_inh t)) (t_own a)) ts
+    let anc := ancestors_of ts t in
+    forallb (fun f => existsb (fun a => match find_ty ts a with Some ta => existsb (feat_same f) (t_own ta) | None => false end) anc) (t_inh t)
+    && forallb (fun a => match find_ty ts a with
+                         | Some ta => forallb (fun g => existsb (fun f => feat_eqb f g) (t_inh t)) (t_own ta)
+                         | None => true end) anc
     && forallb (fun f => forallb (fun g => negb (String.eqb (f_name f) (f_name g)) || feat_eqb f g) (t_own t ++ t_inh t)) (t_own t ++ t_inh t)
     && list_str_eqb (t_ctor_fn t) (feature_names t)
     && match t_ctor t with None => true | Some l => list_str_eqb l (feature_names t) end) ts.
